@@ -18,6 +18,7 @@ import (
 
 	"cosmossdk.io/math"
 
+	cmttypes "github.com/cometbft/cometbft/types"
 	clienttx "github.com/cosmos/cosmos-sdk/client/tx"
 	codectypes "github.com/cosmos/cosmos-sdk/codec/types"
 	cryptocodec "github.com/cosmos/cosmos-sdk/crypto/codec"
@@ -31,7 +32,6 @@ import (
 	govv1 "github.com/cosmos/cosmos-sdk/x/gov/types/v1"
 	slashingtypes "github.com/cosmos/cosmos-sdk/x/slashing/types"
 	stakingtypes "github.com/cosmos/cosmos-sdk/x/staking/types"
-	cmttypes "github.com/cometbft/cometbft/types"
 )
 
 // ReportSpec is a concrete micro-report as placed in dispute messages.
@@ -49,34 +49,34 @@ type ReportSpec struct {
 }
 
 type SpecSpec struct {
-	ValueType string `json:"value_type"`
-	Method    string `json:"method"`
-	Window    uint64 `json:"window"`
+	ValueType string   `json:"value_type"`
+	Method    string   `json:"method"`
+	Window    uint64   `json:"window"`
 	Fields    []string `json:"fields,omitempty"` // abi component types; names f0,f1..
 }
 
 // MsgSpec is a concrete, PRNG-free description of one message.
 type MsgSpec struct {
-	K     string      `json:"k"`
-	As    *int        `json:"as,omitempty"` // actor placed in the message's signer field (default: the tx signer)
-	Q     string      `json:"q,omitempty"`
-	V     string      `json:"v,omitempty"`
-	N     string      `json:"n,omitempty"`
-	N2    string      `json:"n2,omitempty"`
-	U     uint64      `json:"u,omitempty"`
-	Ids   []uint64    `json:"ids,omitempty"`
-	Ids2  []uint64    `json:"ids2,omitempty"`
-	T     int         `json:"t,omitempty"`
-	Val   int         `json:"val,omitempty"`
-	Val2  int         `json:"val2,omitempty"`
-	B     bool        `json:"b,omitempty"`
-	E     int32       `json:"e,omitempty"`
-	S     string      `json:"s,omitempty"`
-	Rep   *ReportSpec `json:"rep,omitempty"`
+	K     string       `json:"k"`
+	As    *int         `json:"as,omitempty"` // actor placed in the message's signer field (default: the tx signer)
+	Q     string       `json:"q,omitempty"`
+	V     string       `json:"v,omitempty"`
+	N     string       `json:"n,omitempty"`
+	N2    string       `json:"n2,omitempty"`
+	U     uint64       `json:"u,omitempty"`
+	Ids   []uint64     `json:"ids,omitempty"`
+	Ids2  []uint64     `json:"ids2,omitempty"`
+	T     int          `json:"t,omitempty"`
+	Val   int          `json:"val,omitempty"`
+	Val2  int          `json:"val2,omitempty"`
+	B     bool         `json:"b,omitempty"`
+	E     int32        `json:"e,omitempty"`
+	S     string       `json:"s,omitempty"`
+	Rep   *ReportSpec  `json:"rep,omitempty"`
 	Reps  []ReportSpec `json:"reps,omitempty"`
-	Spec  *SpecSpec   `json:"spec,omitempty"`
-	Inner []MsgSpec   `json:"inner,omitempty"`
-	Qs    []string    `json:"qs,omitempty"`
+	Spec  *SpecSpec    `json:"spec,omitempty"`
+	Inner []MsgSpec    `json:"inner,omitempty"`
+	Qs    []string     `json:"qs,omitempty"`
 }
 
 // Intent is one transaction a simulated client wants to send.
@@ -112,7 +112,7 @@ type Accounts struct {
 	// Outcome of every intent that reached a block: intent id -> record
 	Outcomes map[int]*TxRecord
 	// CheckTx verdicts: intent id -> node -> code
-	Check map[int]map[int]uint32
+	Check   map[int]map[int]uint32
 	Intents map[int]*Intent
 }
 
@@ -326,8 +326,8 @@ func (a *Accounts) ToMsg(signer int, m *MsgSpec) (sdk.Msg, error) {
 			return nil, err
 		}
 		return &stakingtypes.MsgCreateValidator{
-			Description: stakingtypes.Description{Moniker: fmt.Sprintf("cand%d", ci)},
-			Commission:  stakingtypes.CommissionRates{Rate: math.LegacyZeroDec(), MaxRate: math.LegacyOneDec(), MaxChangeRate: math.LegacyOneDec()},
+			Description:       stakingtypes.Description{Moniker: fmt.Sprintf("cand%d", ci)},
+			Commission:        stakingtypes.CommissionRates{Rate: math.LegacyZeroDec(), MaxRate: math.LegacyOneDec(), MaxChangeRate: math.LegacyOneDec()},
 			MinSelfDelegation: math.OneInt(), ValidatorAddress: sdk.ValAddress(a.Addr(who)).String(), Pubkey: pkAny, Value: coin(m.N),
 		}, nil
 	case "unjail_validator":
@@ -449,7 +449,7 @@ func (a *Accounts) BuildTx(in *Intent) ([]byte, error) {
 	b.SetGasLimit(gas)
 	fee := in.FeeLoya
 	if fee < 0 {
-		fee = int64(gas)*25/10000 + 1
+		fee = int64(gas)/100 + 1 // 0.01 loya per gas: enough for every node-local min-gas-price the swarm draws
 	}
 	b.SetFeeAmount(sdk.NewCoins(sdk.NewInt64Coin(Denom, fee)))
 	mode := signing.SignMode_SIGN_MODE_DIRECT
